@@ -3,6 +3,15 @@
 import json, subprocess
 ALL=[f"C{i:02d}" for i in range(1,21)]
 CHECKS={
+ "C10":("exploration","invariant monitors on step-by-step chained runs (stores observed after every step) and whole runs of the five rainfall-runoff models: finiteness, sign, store bounds, component sums, cumulative no-creation inequality, exact GR4J closure for x2=0/PET=0",
+        "Held on every observed step/run of the executed parameter sets and series.","initial storage upper bound; GR4J positive exchange recomputed by the oracle","3 C10"),
+ "C12":("exploration","conservation monitor on step-by-step chained runs of the eight constituent models: per-step mass balance with every term in the model's documented units, flush permission only below MINIMUM_VOLUME, sign and finiteness monitors, branch coverage tags (required to be observed)",
+        "Held on every observed step; branches hit are listed in the evidence.","1e-9 relative tolerance; decay-off StorageDissolvedDecay","3 C12"),
+ "C13":("exploration","water-balance monitor per timestep from the outputs plus a sub-step trace monitor (verif hook verifSubstep): accepted sub-steps sum to the timestep, outflow/rainfall/evaporation accounting over accepted sub-steps only, release between the curves over the volumes traversed, release = demand when feasible, spill only above full supply",
+        "Held on every observed timestep and accepted sub-step of the executed scenarios.","monotone tables gentle near empty; model's own release tolerances","3 C13"),
+ "C15":("exploration","reference-model monitor: GR4J runoff at every step and final S, R, unit-hydrograph stores vs an independent implementation of the published equations (Perrin et al. 2003), x4 on a dense grid covering every UH length, zero and hot starts",
+        "Held to 1e-9 relative on all executed cases; the reference agrees with the implementation for 1<=x4<2 on the unfixed tree, which cross-checks the transcription.","own transcription of the published equations","3 C15"),
+
  "C01":("exploration","lock-step reference-model monitor: generated histories of nested stepped slices and writes (Set/Set1-3/Apply/Apply1/ApplySlice/CopyFrom) on all 8 element types and both storage back-ends, compared with a shadow array model after every operation (whole caller-owned storage + every live view)",
         "Held on the executed histories; the shadow model defines slicing literally from the property text, so it shares no stride algebra with the implementation.","shadow model; in-bounds triples; C memory = mmap with guard pages / malloc with canaries","3 C01"),
  "C02":("exploration","lock-step reference-model monitor incl. Reshape/ReshapeFast/Unroll/Maximum/Minimum/bulk helpers, contiguity truth table in both directions, aliasing probes, explicit dest-kind x source-kind x op grid for the two-array operations (fast and general paths both required to be observed), exhaustive small-box enumeration of the integer helpers",
